@@ -64,6 +64,9 @@ func (fc *FnCtx) call(in ssa.Instruction, cc *ssa.CallCommon, pos token.Pos) V {
 	if cc.Signature().Results().Len() == 1 {
 		resTy = cc.Signature().Results().At(0).Type()
 	}
+	if name == "(*sync.Once).Do" && len(cc.Args) == 2 {
+		return fc.onceDo(cc, args, pos)
+	}
 	switch kind {
 	case "builtin":
 		return fc.builtin(name, cc, args, resTy, pos)
@@ -673,4 +676,27 @@ func (fc *FnCtx) spawn(cc *ssa.CallCommon, pos token.Pos) {
 			fc.oblige("pre", "go."+shortName(name)+"."+r.Label+"{"+site+"}", env.evalBool(r.E), pos, fc.propsOf(c, r), r.Text)
 		}
 	}
+}
+
+// onceDo: exact model of sync.Once.Do in the sequential fragment: the function runs iff the Once has not fired yet
+// (ghost:oncedone), and afterwards it has.
+func (fc *FnCtx) onceDo(cc *ssa.CallCommon, args []V, pos token.Pos) V {
+	fc.assumptions["exact model of (*sync.Once).Do (sequential: f runs iff the Once has not fired; no concurrent Do)"] = true
+	o := args[0]
+	fc.safe("nil", not(eq(o.T[0], "0")), pos, isKind[*ast.CallExpr])
+	srt := fieldSort(sBool)
+	arr := fc.heapGet(fc.cur, "ghost:oncedone", srt)
+	done := fc.def("oncedone", sBool, sx("select", arr, o.T[0]))
+	before := fc.cur.clone()
+	saved := fc.reach
+	fc.reach = fc.def("oncerun", sBool, and(saved, not(done)))
+	inner := &ssa.CallCommon{Value: cc.Args[1]}
+	fc.call(nil, inner, pos)
+	after := fc.cur
+	fc.reach = saved
+	fc.cur = fc.mergeStates([]string{not(done), done}, []*State{after, before})
+	arr2 := fc.heapGet(fc.cur, "ghost:oncedone", srt)
+	fc.heapSet(fc.cur, "ghost:oncedone", srt, sx("store", arr2, o.T[0], "true"))
+	fc.noteWrite("ghost:oncedone")
+	return V{Ty: types.NewTuple()}
 }
